@@ -25,7 +25,7 @@ func c17Page(w *World, path string, plan int, nDenoms int) (sdk.Coins, int, erro
 	countTotal := plan%2 == 0
 	var next []byte
 	offset := uint64(0)
-	for guard := 0; guard < 100; guard++ {
+	for guard := 0; guard < 20000; guard++ {
 		pr := &query.PageRequest{Limit: limit, CountTotal: countTotal, Reverse: reverse}
 		if byOffset {
 			pr.Offset = offset
